@@ -41,10 +41,19 @@ impl Ctx {
         Ctx {}
     }
     pub fn exec(&self, req: &Sx) -> (Sx, Vec<Sx>, bool) {
-        let mut store = new_store();
+        // variant 1: the store gets strip_temp_ids(false) through with_config() while still empty:
+        // strings in temporary-id syntax are then ordinary strings, for every kind
+        let plain = req.list().len() > 3 && req.nth(3).int() == 1;
+        let mut store = if plain {
+            AnnotationStore::default().with_config(Config::default().with_generate_ids(false).with_debug(false).with_strip_temp_ids(false))
+        } else {
+            new_store()
+        };
+        crate::storegen::NO_TEMP_REFS.store(plain, std::sync::atomic::Ordering::Relaxed);
         for op in req.nth(0).list() {
             let _ = apply(&mut store, op);
         }
+        crate::storegen::NO_TEMP_REFS.store(false, std::sync::atomic::Ordering::Relaxed);
         let store = match req.nth(1).int() {
             0 => Some(store),
             1 => guard(move || {
@@ -117,7 +126,7 @@ pub fn generate(out: &mut Out, tier: &str, seed: u64) {
         };
         out.count(["tail_none", "tail_strip_annotation_ids", "tail_strip_data_ids", "tail_reindex"][tail]);
         let strings = string_pool(&mut rng);
-        let req = l(vec![l(ops), a(tail as i64), l(strings.iter().map(|s| text(s)).collect())]);
+        let req = l(vec![l(ops), a(tail as i64), l(strings.iter().map(|s| text(s)).collect()), a(if i % 4 == 3 { 1 } else { 0 })]);
         let (i2, o, nt) = ctx.exec(&req);
         out.case(&i2, &o, nt, &req);
     }
